@@ -40,6 +40,8 @@ def p_cum_nan_carry(i):
         return False
     import pandas as pd
     op = i.spec.key.split("[")[0]
+    if op not in CUM_OPS:
+        return False          # composite specs of the second catalogue: no model of the repaired defect, generic predicates apply
     data, state, outs = _data(i), None, []
     for lo, hi in i.bounds:
         if hi == lo:
